@@ -417,9 +417,21 @@ def vacuity_twin(text):
     vacuity__ function to FAIL: if it verifies, the precondition is contradictory."""
     toks = tokenize(text)
     fn_i = next(i for i, t in enumerate(toks) if t.text == "fn")
-    body_open = _body_brace(toks, fn_i)
-    if toks[body_open].text == ";":
-        return ""
+    if toks[-1].text != "}":
+        return ""      # bodyless (trait method declaration)
+    # the body is the brace group closed by the last token (spec clauses may contain braces)
+    depth = 0
+    body_open = None
+    for j in range(len(toks) - 1, -1, -1):
+        t = toks[j]
+        if t.kind == "punct":
+            if t.text in (")", "]", "}"):
+                depth += 1
+            elif t.text in ("(", "[", "{"):
+                depth -= 1
+                if depth == 0:
+                    body_open = j
+                    break
     nm = toks[fn_i + 1]
     header = text[:nm.start] + "vacuity__" + nm.text + text[nm.end:toks[body_open].start]
     return header + "{ proof { assert(false); } vstd::pervasive::unreached() }"
@@ -505,8 +517,13 @@ def assemble(template_path, repo):
         # trailing options on the last segment for //@item
         if kind == "item":
             last = segs[-1].split()
-            while last and last[-1] in ("strip-attrs",):
-                opts.add(last.pop())
+            derive = None
+            while last and (last[-1] in ("strip-attrs",) or last[-1].startswith("derive=")):
+                o = last.pop()
+                if o.startswith("derive="):
+                    derive = o[len("derive="):]
+                    o = "strip-attrs"
+                opts.add(o)
             segs[-1] = " ".join(last)
         src = _read(repo, rel)
         item, toks = find_item(src, segs)
@@ -519,6 +536,8 @@ def assemble(template_path, repo):
                 if stripped.strip():
                     ex.dropped.append("attributes on %s: %s" % (where, re.sub(r"\s+", " ", stripped.strip())))
                 text = src[item.start:item.end]
+                if derive:
+                    text = "#[derive(%s)]\n" % derive.replace(",", ", ") + text
             ex.items.append({"file": rel, "path": segs, "line": _line_of(src, item.start)})
             emit(text, rel, _line_of(src, item.start))
             i += 1
